@@ -398,6 +398,19 @@ def find_cases(T, cfg=None):
                     und.append((desc, tm.show(r, 3)))
             res = []
             if und and not bad:
+                # a shape that does not normalise: the derived term is evaluated at members of the shape (free bits all zero / all ones / alternating); a wrong value refutes
+                from laneflow import ceval as CE
+                for desc, xv, want in cases_:
+                    frees = sorted({x for x in tm.walk(xv) if x.op == 'in'}, key=lambda q: q.id)
+                    for fill in (0, (1 << w) - 1, 0x5555555555555555 & ((1 << w) - 1)):
+                        try:
+                            val = CE.evaluate(xv, {x: fill for x in frees}) if frees else CE.evaluate(xv, {})
+                            got = CE.evaluate(t, {a: val})
+                        except CE.NoValue:
+                            continue
+                        got_s = got - (1 << t.w) if got >> (t.w - 1) else got
+                        if got_s != want:
+                            return [R.ob(name, 'find_lsb_msb', R.REFUTED, '%s(%#x) = %d, documented %d (%s)' % (fn, val, got_s, want, desc), where=R.where_of(it, t), kernel=k.source())]
                 return [R.ob(name, 'find_lsb_msb', R.UNDECIDED, 'the term does not normalise to a constant on the shape "%s": %s' % und[0], kernel=k.source())]
             if not bad:
                 return [R.ob(name, 'find_lsb_msb', R.PROVED, '%s: on each of the %d value shapes (position of the deciding bit fixed, all other bits symbolic) the result is the documented bit number' % (fn, len(cases_)), kernel=k.source())]
